@@ -2,13 +2,14 @@
 # Build the framework offline from files on disk (run once in /verif after a fresh restore).
 set -e
 cd "$(dirname "$0")"
+V=$(pwd)
 export CARGO_NET_OFFLINE=true
 mkdir -p target evidence
 [ -f harness/Cargo.lock ] || cp /repo/Cargo.lock harness/Cargo.lock
 [ -f irrfake/Cargo.lock ] || cp /repo/Cargo.lock irrfake/Cargo.lock
 (cd harness && cargo build --release --offline)
-(cd /repo && cargo build --release --offline -p bgpfu-cli -p bgpfu-junos-agent --target-dir /verif/target/repo)
+(cd /repo && cargo build --release --offline -p bgpfu-cli -p bgpfu-junos-agent --target-dir "$V/target/repo")
 gcc -O2 -shared -fPIC -o target/dilate.so shim/dilate.c -ldl
 # secondary oracle: the interpreter build is prepared here so that the quick checks only run it
-(cd harness && MIRIFLAGS=-Zmiri-disable-isolation cargo +nightly miri run --offline --no-default-features --target-dir /verif/target/miri -q -- noop) || echo "setup: miri build failed (stages will report inconclusive (tool))"
+(cd harness && MIRIFLAGS=-Zmiri-disable-isolation cargo +nightly miri run --offline --no-default-features --target-dir "$V/target/miri" -q -- noop) || echo "setup: miri build failed (stages will report inconclusive (tool))"
 echo "setup: done"
